@@ -178,12 +178,13 @@ Section More.
                  end) = Some x -> Ext r (fst x)).
     { intros r1 H1 x. destruct oc as [c|]; [|discriminate]. destruct (size_of c =? 0); intros [= <-]; cbn [fst]; [exact H1|].
       apply Ext_emit; [apply Ext_emit; [exact H1 | exact I] | exact I]. }
+    set (hp := existsb (dfile_eqb (DPartial h)) (debris (rs r))).
     set (prep := match partrec_state h 0 (debris (rs r)) with Some PRTorn => _ | Some st => _ | None => _ end).
     assert (P : forall x, prep = Some x -> Ext r (fst x)).
-    { subst prep. intros x. destruct (partrec_state h 0 (debris (rs r))) as [[| |]|].
-      - cbn [negb]. apply (F _ E1).
-      - intros [= <-]. apply Ext_refl.
-      - intros [= <-]. apply Ext_refl.
+    { subst prep. intros x. destruct (partrec_state h 0 (debris (rs r))) as [[| |]|]; cbn [negb orb].
+      - apply (F _ E1).
+      - destruct hp; [intros [= <-]; apply Ext_refl | apply (F _ E1)].
+      - destruct hp; [intros [= <-]; apply Ext_refl | apply (F _ E1)].
       - apply (F r (Ext_refl r)). }
     destruct prep as [[r1 st0]|] eqn:Ep.
     - assert (H1 := P _ eq_refl). cbn [fst] in H1. destruct oc as [c|]; [|exact H1].
@@ -194,7 +195,7 @@ Section More.
       set (r4 := match st0 with Some _ => emit r3 (ERmPart h 0) | None => r3 end).
       assert (H4 : Ext r r4) by (subst r4; destruct st0; [apply Ext_emit; [exact H3 | exact I] | exact H3]).
       destruct (dcolon (ldg l) && (c =? h)); cbn [fst]; apply Ext_emit; try exact H4; exact I.
-    - cbn [fst]. destruct (partrec_state h 0 (debris (rs r))) as [[| |]|]; try apply Ext_refl. exact E1.
+    - cbn [fst]. destruct (partrec_state h 0 (debris (rs r))) as [[| |]|]; cbn [negb orb]; try destruct hp; try apply Ext_refl; exact E1.
   Qed.
 
   Lemma download_all_ext ls : forall cs r, Ext r (fst (download_all size_of r ls cs)).
